@@ -174,7 +174,7 @@ fn run_hist_from<T: BE>(case: &Value, out: &mut Out, k0: usize) {
                 let mut bj = pre[0].clone(); bj["ci"] = pre[1]["c"].clone();
                 let dc = dense_case(&bj);
                 let bc: Vec<(f64, f64)> = if name == "solve" { vec_of::<T>(&op["b"], if T::CX { op.get("bi") } else { None }).vec.iter().map(|x| x.to_c()).collect() } else { vec![(0.0, 0.0); n] };
-                let (du, su, singular) = float_units::<T>(&dc, &bc, if let Res::Det(d) = &res { Some(*d) } else { None }, if let Res::X(x) = &res { Some(x) } else { None });
+                let (du, su, singular) = float_units(&dc, &bc, if let Res::Det(d) = &res { Some(d.to_c()) } else { None }, if let Res::X(x) = &res { Some(x.vec.iter().map(|v| v.to_c()).collect()) } else { None });
                 if T::CX { e["prei"] = pre[1].clone(); } e["n"] = json!(n); e["cxf"] = json!(T::CX);
                 if name == "det" { e["op"] = json!("det_units"); e["units"] = json!(du); out.ev(e); }
                 else if !singular { e["op"] = json!("solve_units"); e["units"] = json!(su); out.ev(e); }
@@ -278,6 +278,8 @@ pub fn ref_gepp(a: &[Vec<CDD>], b: &[CDD]) -> (CDD, f64, Vec<CDD>) {
     (det, minp, x)
 }
 fn cabs(p: (f64, f64)) -> f64 { p.0.hypot(p.1) }
+/// x * 2^k, exactly (unless the result itself leaves the f64 range); the factor is applied in pieces of at most 2^+-1000
+pub fn scale2(x: f64, k: i64) -> f64 { let mut x = x; let mut k = k; while k != 0 { let s = k.clamp(-1000, 1000); x *= (2.0f64).powi(s as i32); k -= s; } x }
 /// backward error of x for A x = b in units of eps * (|A|_inf |x|_inf + |b|_inf); residual accumulated in double-double
 pub fn backward_units(a: &[Vec<(f64, f64)>], x: &[(f64, f64)], b: &[(f64, f64)]) -> i64 {
     let n = a.len(); let mut rmax = 0.0f64; let mut an = 0.0f64;
@@ -293,7 +295,7 @@ pub fn backward_units(a: &[Vec<(f64, f64)>], x: &[(f64, f64)], b: &[(f64, f64)])
 
 /// (determinant units, solve units, reference says singular) for a float result against double-double references;
 /// a missing result (panic) counts as saturated
-fn float_units<T: BE>(dc: &[Vec<(f64, f64)>], bc: &[(f64, f64)], det: Option<T>, sol: Option<&Vector<T>>) -> (i64, i64, bool) {
+fn float_units(dc: &[Vec<(f64, f64)>], bc: &[(f64, f64)], det: Option<(f64, f64)>, sol: Option<Vec<(f64, f64)>>) -> (i64, i64, bool) {
     let n = dc.len();
     let a: Vec<Vec<CDD>> = dc.iter().map(|r| r.iter().map(|p| CDD::from(p.0, p.1)).collect()).collect();
     let (rdet, minp, _) = ref_gepp(&a, &bc.iter().map(|p| CDD::from(p.0, p.1)).collect::<Vec<CDD>>());
@@ -301,8 +303,8 @@ fn float_units<T: BE>(dc: &[Vec<(f64, f64)>], bc: &[(f64, f64)], det: Option<T>,
     // determinant: unit = eps * sqrt(n) * prod_i max(|row_i|_2, max|a|)  (multilinearity of det in the rows)
     let mut unit = f64::EPSILON * (n as f64).sqrt();
     for r in dc { let r2 = r.iter().map(|p| p.0 * p.0 + p.1 * p.1).sum::<f64>().sqrt(); unit *= r2.max(amax); }
-    let du = match det { Some(d) => { let (re, im) = d.to_c(); if re.is_finite() && im.is_finite() { units(CDD::from(re, im).sub(rdet).abs(), unit) } else { SAT } } None => SAT };
-    let su = match sol { Some(x) => backward_units(dc, &x.vec.iter().map(|v| v.to_c()).collect::<Vec<_>>(), bc), None => SAT };
+    let du = match det { Some((re, im)) => { if re.is_finite() && im.is_finite() { units(CDD::from(re, im).sub(rdet).abs(), unit) } else { SAT } } None => SAT };
+    let su = match sol { Some(x) => backward_units(dc, &x, bc), None => SAT };
     (du, su, !(minp > 1e-9 * amax))
 }
 
@@ -335,8 +337,18 @@ fn run_lu<T: BE>(case: &Value, out: &mut Out) {
         let (xs, l) = match &sol { Ok(x) => jxs(common_den(&x.vec.iter().map(rat_val).collect::<Vec<Rat>>(), LIM), n), Err(_) => jxs(None, n) };
         emit(out, &mut k, json!({"op": "solve", "pre": pre, "b": case["b"], "panic": sol.is_err(), "xs": xs, "L": l, "msg": sol.as_ref().err().cloned().unwrap_or_default()}));
     } else {
-        let (du, su, singular) = float_units::<T>(&dc, &bc, det.as_ref().ok().copied(), sol.as_ref().ok());
-        emit(out, &mut k, json!({"op": "det_units", "n": n, "cxf": T::CX, "panic": det.is_err(), "units": if det.is_ok() { du } else { SAT }, "singular": singular}));
+        // extreme magnitudes: the case says A = A0 * 2^ea, b = b0 * 2^eb.  The error measures are invariant under such
+        // uniform scalings, so they are evaluated on the descaled data (A0, b0, x * 2^(ea-eb), det * 2^(-n ea)) - exact
+        // power-of-two rescalings, no overflow or underflow inside the measurement
+        let ea = case.get("ea").and_then(|v| v.as_i64()).unwrap_or(0); let eb = case.get("eb").and_then(|v| v.as_i64()).unwrap_or(0);
+        let sc = |p: (f64, f64), k: i64| (scale2(p.0, k), scale2(p.1, k));
+        let dc: Vec<Vec<(f64, f64)>> = dc.iter().map(|r| r.iter().map(|p| sc(*p, -ea)).collect()).collect();
+        let bc: Vec<(f64, f64)> = bc.iter().map(|p| sc(*p, -eb)).collect();
+        // beyond |n ea| = 900 the determinant itself leaves the f64 range; row / column graded cases are judged on solve only
+        let det_ok = case.get("dete").and_then(|v| v.as_i64()).unwrap_or(ea * n as i64).abs() <= 900 && case.get("graded").is_none();
+        let (du, su, singular) = float_units(&dc, &bc, det.as_ref().ok().map(|d| sc(d.to_c(), -ea * n as i64)), sol.as_ref().ok().map(|x| x.vec.iter().map(|v| sc(v.to_c(), ea - eb)).collect()));
+        let singular = singular && case.get("regular").is_none();     // "regular": nonsingular by construction (graded scalings of a regular matrix)
+        if det_ok { emit(out, &mut k, json!({"op": "det_units", "n": n, "cxf": T::CX, "panic": det.is_err(), "units": if det.is_ok() { du } else { SAT }, "singular": singular})); }
         // solve: only where the reference elimination meets no (nearly) zero pivot
         if !singular { emit(out, &mut k, json!({"op": "solve_units", "n": n, "cxf": T::CX, "panic": sol.is_err(), "units": if sol.is_ok() { su } else { SAT }})); }
     }
@@ -524,6 +536,14 @@ pub fn gen(tier: &str, seed: u64, out: &mut Out) {
             } }
         }
     } } }
+    // (e) extreme magnitudes: every n, entries uniformly scaled by 2^+-60, 2^+-200, 2^+-400 (and row / column graded)
+    for n in 1..=10usize {
+        let mut geos: Vec<(usize, usize)> = vec![(0, 0)];
+        if n >= 2 { geos = vec![(1, 1), (n - 1, n - 1), (1, 0)]; }
+        if n >= 3 { geos = vec![(1, 1), (n - 1, n - 1), (2, 1), (rng.gen_range(0..n), rng.gen_range(0..n))]; }
+        if quick && geos.len() > 2 { let off = rng.gen_range(0..geos.len()); geos = vec![geos[off], geos[(off + 1) % geos.len()]]; }
+        for (m1, m2) in geos { let mut v = vec![]; scaled_cases(&mut rng, n, m1, m2, quick, &mut v); for c in v { push(out, c); } }
+    }
     // (d) sequences on one object: det / solve / product / reads before and after EVERY mutating operation
     for n in 1..=10usize {
         let mut geos: Vec<(usize, usize)> = vec![(0, 0)];
@@ -659,4 +679,57 @@ fn solvable(case: &Value) -> bool {
     let (_, minp, _) = ref_gepp(&a, &vec![CDD::ZERO; n]);
     let amax = dc.iter().flatten().map(|p| cabs(*p)).fold(0.0, f64::max);
     minp > 1e-6 * amax
+}
+
+// ------------------------------------------------------------------ extreme magnitudes (floats)
+/// v * 2^k as JSON ({m, e}); zero stays zero
+pub fn jscale(v: &Value, k: i64) -> Value {
+    if let Some(m) = v.as_i64() { if m == 0 || k == 0 { json!(m) } else { json!({"m": m, "e": k}) } }
+    else { let m = v["m"].as_i64().unwrap(); if m == 0 { json!(0) } else { json!({"m": m, "e": v["e"].as_i64().unwrap() + k}) } }
+}
+/// Scale a float "lu" case: A := 2^ea * D_r A D_c, b := 2^eb * D_r b with D_r = diag(2^rowe), D_c = diag(2^cole)
+/// (in-band entries only; padding keeps its O(1) values).  ea / eb are recorded in the case: exec descales by them.
+fn scale_case(case: &mut Value, ea: i64, eb: i64, rowe: &[i64], cole: &[i64]) {
+    let (n, m1, m2) = (getu(&case["band"], "n"), getu(&case["band"], "m1"), getu(&case["band"], "m2")); let mm = m1 + m2 + 1;
+    for key in ["c", "ci"] { if case["band"].get(key).is_none() { continue; }
+        let d: Vec<Value> = case["band"][key]["d"].as_array().unwrap().clone(); let mut nd = vec![];
+        for i in 0..n { for c in 0..mm { let v = &d[i * mm + c]; let j = i as isize + c as isize - m1 as isize;
+            nd.push(if j >= 0 && (j as usize) < n { jscale(v, ea + rowe[i] + cole[j as usize]) } else { v.clone() }); } }
+        case["band"][key]["d"] = Value::from(nd); }
+    for key in ["b", "bi"] { if let Some(b) = case.get(key).cloned() { case[key] = Value::from(b.as_array().unwrap().iter().enumerate().map(|(i, v)| jscale(v, eb + rowe[i])).collect::<Vec<Value>>()); } }
+    case["ea"] = json!(ea); case["eb"] = json!(eb);
+    let gsum: i64 = rowe.iter().sum::<i64>() + cole.iter().sum::<i64>();
+    case["gsum"] = json!(gsum); case["dete"] = json!(ea * n as i64 + gsum);       // det(A) = 2^dete * det(A0)
+    if let Some(m) = case.as_object_mut() { m.remove("v"); m.remove("vi"); }
+}
+/// regular base matrices for the scaled family: mixed signs / zero diagonal under nonzero sub-diagonal / general reals
+fn scaled_cases(rng: &mut StdRng, n: usize, m1: usize, m2: usize, quick: bool, out: &mut Vec<Value>) {
+    let scales: [i64; 6] = [-400, -200, -60, 60, 200, 400];
+    for cx in [false, true] { for (q, ea) in scales.iter().enumerate() {
+        if quick && (q + n + m1 + cx as usize) % 2 == 1 && ea.abs() != 400 && ea.abs() != 200 { continue; }
+        // base case, regular by the reference elimination
+        let mut base = Value::Null;
+        for _ in 0..30 {
+            let fam = [1usize, 3, 6, 2][rng.gen_range(0..4)];
+            let a = family(rng, n, m1, m2, fam, 9, true);
+            let mut band = band_json(rng, n, m1, m2, &a, 0);
+            let mut c = json!({"kind": "lu", "fam": "scaled", "base": fam, "ty": if cx { "cx" } else { "f64" }, "b": rand_vec_json(rng, n, -9, 9)});
+            if cx { let ai = family(rng, n, m1, m2, if fam == 3 { 3 } else { 1 }, 9, false); band["ci"] = band_json(rng, n, m1, m2, &ai, 0)["c"].clone(); c["bi"] = rand_vec_json(rng, n, -9, 9); }
+            c["band"] = band;
+            if solvable(&c) { base = c; break; }
+        }
+        if base.is_null() { continue; }
+        // right-hand side: solution O(1) (eb = ea) or as extreme as the matrix (eb = 2 ea)
+        // (Complex: b * pivot must stay representable for the naive complex quotient, so "as extreme" stops at 2^+-200)
+        let eb = if (q + n) % 2 == 0 || (cx && ea.abs() > 200) { *ea } else { 2 * *ea };
+        let mut c = base.clone(); scale_case(&mut c, *ea, eb, &vec![0; n], &vec![0; n]); c["regular"] = json!(true); out.push(c);
+        // row- or column-graded by 2^-200 .. 2^200 on top of a moderate uniform scale (Gaussian elimination with partial
+        // pivoting cannot overflow: multipliers are bounded by 1)
+        if ea.abs() == 60 || (!quick && ea.abs() == 200) {
+            let ea2 = if ea.abs() == 60 { *ea } else { 0 };
+            let g: Vec<i64> = (0..n).map(|_| [0i64, -60, -200, 200, 60][rng.gen_range(0..5)]).collect(); let z = vec![0i64; n];
+            let mut c = base.clone(); if *ea > 0 { scale_case(&mut c, ea2, ea2, &g, &z); c["graded"] = json!("rows"); } else { scale_case(&mut c, ea2, ea2, &z, &g); c["graded"] = json!("cols"); }
+            c["regular"] = json!(true); out.push(c);
+        }
+    } }
 }
